@@ -233,6 +233,66 @@ func c19MidRead(c *Ctx) (evals int64) {
 			}
 		}
 	}
+	// two file lists, each with a rule longer than the read buffer: the file of list 1 is closed between two
+	// block reads of its long rule; the long rule of the healthy list 2, read next, is served as written
+	for faultAt := 1; faultAt <= 2; faultAt++ {
+		mk := func(tag string, n int) (string, string) {
+			var ds []string
+			for i := 0; i < n; i++ {
+				ds = append(ds, fmt.Sprintf("%s%04d.test", tag, i))
+			}
+			long := "/" + tag + "x$script,domain=" + strings.Join(ds, "|")
+			return long, "||pre-" + tag + ".test^\n" + long + "\n||post-" + tag + ".test^\n"
+		}
+		long1, text1 := mk("one", 900)
+		long2, text2 := mk("two", 700)
+		fl1, err1 := filterlist.NewFileRuleList(1, scen.PathFor(text1), false)
+		fl2, err2 := filterlist.NewFileRuleList(2, scen.PathFor(text2), false)
+		if err1 != nil || err2 != nil {
+			panic(HarnessError(fmt.Sprint(err1, err2)))
+		}
+		st, err := filterlist.NewRuleStorage([]filterlist.RuleList{fl1, fl2})
+		if err != nil {
+			panic(HarnessError(err.Error()))
+		}
+		ne := urlfilter.NewNetworkEngine(st)
+		chunks := 0
+		filterlist.VerifYieldHook = func(point string) {
+			if point == "file.read-next-chunk" {
+				chunks++
+				if chunks == faultAt {
+					_ = fl1.File.Close()
+				}
+			}
+		}
+		q1 := rules.NewRequest("http://y.test/onex", "http://one0899.test/", rules.TypeScript)
+		q2 := rules.NewRequest("http://y.test/twox", "http://two0699.test/", rules.TypeScript)
+		truth := map[string]bool{long1: true, long2: true}
+		desc := fmt.Sprintf("two file lists with one rule of %d and one of %d bytes; the file of list 1 closed after block %d of the retrieval of its long rule", len(long1), len(long2), faultAt)
+		for qi, rq := range []*rules.Request{q1, q2, q2, q1} {
+			var got []*rules.NetworkRule
+			evals++
+			if p := protect(func() { got = ne.MatchAll(rq) }); p != nil {
+				c.Run.Violate(ev.Violation{Pred: "no-crash", Sig: map[string]any{"mid_read_two_lists": faultAt}, What: fmt.Sprintf("%s: query #%d panics: %v", desc, qi+1, p), Replay: map[string]any{"mid_read": true}})
+				break
+			}
+			for _, r := range got {
+				if !truth[r.RuleText] || !r.Match(rq) {
+					c.Run.Violate(ev.Violation{Pred: "returned-rule-truly-matches", Sig: map[string]any{"mid_read_two_lists": faultAt, "query": qi},
+						What:   fmt.Sprintf("%s: query #%d returned %q (%d bytes), which is not a rule of the lists that matches the request", desc, qi+1, clip(r.RuleText), len(r.RuleText)),
+						Replay: map[string]any{"mid_read": true}})
+				}
+			}
+			if (qi == 1 || qi == 2) && (len(got) != 1 || got[0].RuleText != long2) {
+				c.Run.Violate(ev.Violation{Pred: "materialised-rules-still-served", Sig: map[string]any{"mid_read_two_lists": faultAt, "query": qi},
+					What:   fmt.Sprintf("%s: query #%d for the long rule of the healthy list 2 returns %d rules instead of that rule", desc, qi+1, len(got)),
+					Replay: map[string]any{"mid_read": true}})
+			}
+		}
+		filterlist.VerifYieldHook = nil
+		_ = fl1.File.Close()
+		_ = fl2.File.Close()
+	}
 	return evals
 }
 
